@@ -83,6 +83,10 @@ Definition her_truncate (b : her) : her :=
   mkH (h_cap b) (h_nenv b) (h_hto b) (h_pos b) (h_full b)
       (fun e => col_truncate (h_cap b) (h_hto b) (h_pos b) (h_cols b e)).
 
+(* BaseBuffer.reset(), inherited unchanged: only the cursor; ep_start / ep_length / _current_ep_start stay.
+   NOT part of the histories the theorems quantify over (see Refuted/C16_reset_keeps_bookkeeping.v) *)
+Definition her_reset (b : her) : her := mkH (h_cap b) (h_nenv b) (h_hto b) 0 false (h_cols b).
+
 Inductive hop := HAdd (row : list hin) | HTrunc | HPickle.
 Definition her_step (b : her) (o : hop) : her :=
   match o with HAdd r => her_add b r | HTrunc => her_truncate b | HPickle => b end.
@@ -144,7 +148,7 @@ Definition her_observe (g : strategy) (copy_info : bool) (b : her) :=
   (h_pos b, h_full b, map (fun e => cur (h_cols b (Z.to_nat e))) (zrange 0 (Z.to_nat (h_nenv b))),
    valid_flat b, her_table g copy_info b).
 
-Inductive hhop := HHAdd (row : list hin) | HHTrunc | HHPickle | HHObs.
+Inductive hhop := HHAdd (row : list hin) | HHTrunc | HHPickle | HHObs | HHReset.
 Fixpoint hhrun (g : strategy) (copy_info : bool) (b : her) (ops : list hhop) :=
   match ops with
   | [] => []
@@ -152,4 +156,5 @@ Fixpoint hhrun (g : strategy) (copy_info : bool) (b : her) (ops : list hhop) :=
   | HHTrunc :: rest => hhrun g copy_info (her_truncate b) rest
   | HHPickle :: rest => hhrun g copy_info b rest
   | HHObs :: rest => her_observe g copy_info b :: hhrun g copy_info b rest
+  | HHReset :: rest => hhrun g copy_info (her_reset b) rest
   end.
